@@ -356,6 +356,20 @@ def oracle(c, r):
             return
         uvs, verts, faces = c["uvs"], c["verts"], c["faces"]
         scale = max(1.0, max(abs(x) for p in uvs for x in p))
+        ap = r.get("append")
+        if ap:
+            for nm, sfx in (("a mapped mesh after append of an unmapped piece", ""), ("an unmapped mesh after append of a mapped one", "_rev")):
+                uf, nf = ap["uv_faces" + sfx], ap["faces" + sfx]
+                if uf is not None and uf != nf:
+                    yield ("uv-append", "%s (append %s) carries a UV map of %d triangles for %d faces" % (nm, "succeeded" if ap["ok" + sfx] else "failed", uf, nf))
+            if ap["uv_faces"] is not None:
+                sc3 = max(1.0, max(abs(x) for p in verts for x in p))
+                for nm, src in (("near_trip", ap["q0"]), ("far_trip", ap["far"])):
+                    v = ap[nm]
+                    if isinstance(v, dict):
+                        yield ("uv-append", "after append onto a mapped mesh, the round trip of %r through UV panicked" % (src,))
+                    elif nm == "near_trip" and (v is None or math.dist(v, src) > 1e-6 * sc3):
+                        yield ("uv-append", "after append onto a mapped mesh, the surface point %r round-trips through UV to %r" % (src, v))
         for q, o in zip(c["queries"], r["out"]):
             what = "UV map of %d faces, face %d barycentric %r" % (len(faces), q[0], q[1:])
             if isinstance(o["tri"], dict) and o["tri"].get("panic"):
